@@ -176,6 +176,40 @@ def classify_conc(calls):
     return props
 
 
+def symptom_props(calls, why, family):
+    """Sequentially-stated properties that a non-linearizable history violates as well, judged by the
+    symptom: a referenced object missing (C04), a bound pid bound again (C03), reference files that
+    no order explains (C05), documents of different pids interfering (C11)."""
+    extra = set()
+    why = why or {}
+    diffs = why.get("diffs") or []
+    classes = set(d[0] for d in diffs)
+    if "obj-missing-referenced" in classes:
+        extra.add("C04")
+    if any(c.startswith("pidref") or c.startswith("cidref") or c.startswith("residue") for c in classes):
+        extra.add("C05")
+    if any(c.startswith("meta") for c in classes) and family == "metax":
+        extra.add("C11")
+    call = why.get("call")
+    if call and call.get("op") in ("store", "tag") and why.get("got", [None])[0] == "ok" and \
+            set((why.get("model_expected") or {}).get("excs", [])) & M.ALREADY:
+        extra.add("C03")
+    if call and call.get("op") in ("rmeta", "smeta", "dmeta") and family == "metax":
+        extra.add("C11")
+    # two successful binds of one pid with no successful delete of it
+    binds = {}
+    deleted = set()
+    for c in calls:
+        if c.out and c.out[0] == "ok":
+            if c.op["op"] in ("store", "tag") and c.op.get("pid") is not None:
+                binds[c.op["pid"]] = binds.get(c.op["pid"], 0) + 1
+            if c.op["op"] == "delete":
+                deleted.add(c.op["pid"])
+    if any(n > 1 and p not in deleted for p, n in binds.items()):
+        extra.add("C03")
+    return extra
+
+
 class ConcEngine(object):
     def __init__(self, prog, keep=False):
         self.prog = prog
@@ -329,6 +363,8 @@ class ConcEngine(object):
                     if o2 is not None:
                         # explained entirely by delete-all acting document by document
                         tag = "nonlin-deleteall-split"
+                if not mp and tag == "nonlin":
+                    props = props | symptom_props(calls, why, prog.get("family"))
                 res.violations.append(Violation(
                     props, "linearizability", "%s:%s" % (tag, _nonlin_sig(calls, why)),
                     {"why": _jsonable(why), "scenario": scenario,
@@ -346,6 +382,8 @@ class ConcEngine(object):
                 pexp = m2.op_retrieve({"pid": pi})
                 out, _ = w.exec_op({"op": "retrieve", "pid": pi})
                 if not pexp.matches(out):
+                    if not mp and pexp.has_ok:
+                        props = props | {"C04"}
                     res.violations.append(Violation(props, "probe", "conc-probe:retrieve:%s->%s" % (_expsig(pexp), _outsig(out)),
                                                     {"pid": w.pids[pi], "expected": pexp.describe(),
                                                      "got": [out[0], _jsonable(out[1])], "scenario": scenario}))
